@@ -4,7 +4,9 @@
 //! caller saw and, from the mock's trace, the paging_state of every QUERY/EXECUTE frame of the
 //! statement together with the number of Rows pages the mock had served before it arrived.
 //!
-//! case : <kind F|S|D|T> <mode s> <api q|e> <cons full|slowMS|dropN> <nodes> <policy x|di|dn> <script>
+//! case : <kind F|S|J|D|T> <mode s|c> <api q|e|E> <cons full|slowMS|jit|dropN> <nodes> <policy x|di|dn|f> <script>
+//!   mode s : Session::query_iter (api q) / Session::execute_iter (api e; E = with cached result metadata)
+//!   mode c : Connection::execute_iter on a bare connection (hook scylla::client::verif_pager), policy f
 //!   script : pages joined by ';' ; page = <faults>/<resp>
 //!     faults : '-' | f(,f)*  f = T (no reply: client timeout) | D<ms> (delayed reply) |
 //!              E<hexcode><s|n|d|i> (ERROR with that code; the retry decision the policy takes:
@@ -39,7 +41,7 @@ const E_BROKEN: u32 = 0x10004;
 const E_OTHER: u32 = 0x1ffff;
 /// client-side timeout of the cases that contain a `T` fault; every other reply of such a
 /// case must arrive within it (generous: loopback round trips take well under a millisecond)
-const TIMEOUT_MS: u64 = 2500;
+const TIMEOUT_MS: u64 = 4000;
 
 #[derive(Clone, Debug, PartialEq)]
 enum Fault {
@@ -57,6 +59,8 @@ enum Resp {
 enum Cons {
     Full,
     Slow(u64),
+    /// every poll of next() that returns Pending is a cancelled future (cancel safety)
+    Jitter,
     Drop(usize),
 }
 #[derive(Clone, Debug)]
@@ -82,6 +86,7 @@ impl Case {
         let cons = match &self.cons {
             Cons::Full => "full".to_string(),
             Cons::Slow(ms) => format!("slow{:x}", ms),
+            Cons::Jitter => "jit".to_string(),
             Cons::Drop(n) => format!("drop{:x}", n),
         };
         let pages: Vec<String> = self
@@ -121,6 +126,8 @@ impl Case {
         }
         let cons = if f[3] == "full" {
             Cons::Full
+        } else if f[3] == "jit" {
+            Cons::Jitter
         } else if let Some(ms) = f[3].strip_prefix("slow") {
             Cons::Slow(u64::from_str_radix(ms, 16).ok()?)
         } else if let Some(n) = f[3].strip_prefix("drop") {
@@ -296,7 +303,7 @@ fn actions_for(env: &Env, c: &Case) -> Vec<Action> {
             Resp::Void => Action::Void,
             Resp::NonResult => Action::RawBody { opcode: op::READY, body: vec![] },
             Resp::Rows(rows, st) => {
-                let mut spec = RowsSpec::new(env.cols.clone(), rows.iter().map(|v| vec![cell::int(*v as i32)]).collect()).with_meta(MetaMode::Full);
+                let mut spec = RowsSpec::new(env.cols.clone(), rows.iter().map(|v| vec![cell::int(*v as i32)]).collect()).with_meta(MetaMode::Auto);
                 if let Some(s) = st {
                     spec = spec.with_paging_state(s.clone());
                 }
@@ -358,14 +365,14 @@ async fn run_case(env: &mut Env, c: &Case) -> String {
     let uniq = env.counter;
     let text = if c.mode == 'c' {
         format!("SELECT v FROM ks.t WHERE ck = {}", uniq)
-    } else if c.api == 'e' {
+    } else if c.api != 'q' {
         format!("SELECT v FROM ks.t WHERE pk = ? AND ck = {}", uniq)
     } else {
         format!("SELECT v FROM ks.t WHERE pk = {}", uniq)
     };
     if c.mode == 'c' {
         env.cluster.on_prepare(&text, env.table.prepared("ks", &[], &["v"]));
-    } else if c.api == 'e' {
+    } else if c.api != 'q' {
         env.cluster.on_prepare(&text, env.table.prepared("ks", &["pk"], &["v"]));
     }
     let id = env.cluster.prepared_id(&text);
@@ -390,11 +397,13 @@ async fn run_case(env: &mut Env, c: &Case) -> String {
             Ok(Err(_)) => Err(format!("f{:x}", E_OTHER - 5)),
             Ok(Ok(p)) => Ok(p),
         }
-    } else if c.api == 'e' {
+    } else if c.api != 'q' {
         let mut st = Statement::new(text.clone());
         st.set_page_size(5);
         match env.session.prepare(st).await {
             Ok(mut p) => {
+                // 'E': result metadata cached at PREPARE time, pages arrive with NO_METADATA
+                p.set_use_cached_result_metadata(c.api == 'E');
                 p.set_retry_policy(Some(retry));
                 p.set_is_idempotent(idem);
                 p.set_request_timeout(timeout);
@@ -420,7 +429,18 @@ async fn run_case(env: &mut Env, c: &Case) -> String {
                     _ => usize::MAX,
                 };
                 while items.len() < limit {
-                    match stream.next().await {
+                    let nxt = if c.cons == Cons::Jitter {
+                        // poll once; a Pending poll drops (cancels) the future, then try again
+                        loop {
+                            if let Some(x) = futures::FutureExt::now_or_never(stream.next()) {
+                                break x;
+                            }
+                            tokio::time::sleep(Duration::from_micros(100)).await;
+                        }
+                    } else {
+                        stream.next().await
+                    };
+                    match nxt {
                         None => {
                             items.push("$".into());
                             break;
@@ -537,7 +557,7 @@ fn gen_case(r: &mut Rng, max_rows: usize, tier_thorough: bool) -> Case {
         }
     }
     .to_string();
-    let api = if mode == 'c' || r.bool() { 'e' } else { 'q' };
+    let api = if mode == 'c' { 'e' } else { *r.pick(&['q', 'e', 'E']) };
     // result set 0..N rows with distinct values, split into pages (empty pages anywhere)
     let total = match r.below(8) {
         0 => 0,
@@ -648,6 +668,10 @@ fn gen_case(r: &mut Rng, max_rows: usize, tier_thorough: bool) -> Case {
         6 => {
             kind = 'S';
             Cons::Slow(r.range(1, 3))
+        }
+        7 => {
+            kind = 'J';
+            Cons::Jitter
         }
         _ => {
             kind = 'D';
